@@ -447,7 +447,10 @@ class _Cmp(ast.NodeTransformer):
         # (lambda a, b: E)(x, y) with plain arguments: E[a := x, b := y]
         if isinstance(n.func, ast.Lambda) and not n.keywords and not n.func.args.defaults and not n.func.args.vararg and not n.func.args.kwarg \
                 and not n.func.args.kwonlyargs and len(n.args) == len(n.func.args.args) and all(_no_call(a) and not isinstance(a, ast.Starred) for a in n.args) \
-                and not any(isinstance(x, (ast.Lambda, ast.ListComp, ast.SetComp, ast.DictComp, ast.GeneratorExp, ast.NamedExpr)) for x in ast.walk(n.func.body)):
+                and not any(isinstance(x, (ast.ListComp, ast.SetComp, ast.DictComp, ast.GeneratorExp, ast.NamedExpr)) for x in ast.walk(n.func.body)) \
+                and not any(isinstance(x, ast.Lambda) and x is not n.func.body for x in ast.walk(n.func.body)) \
+                and not (isinstance(n.func.body, ast.Lambda) and ({a.arg for a in n.func.body.args.args} & {y.id for a_ in n.args for y in ast.walk(a_) if isinstance(y, ast.Name)}
+                                                                   or any(isinstance(x, ast.Lambda) for x in ast.walk(n.func.body.body)))):
             m = dict(zip([a.arg for a in n.func.args.args], n.args))
 
             class B(ast.NodeTransformer):
@@ -457,6 +460,36 @@ class _Cmp(ast.NodeTransformer):
                     return x
             STATS["beta"] = STATS.get("beta", 0) + 1
             return _loc(B().visit(copy.deepcopy(n.func.body)), n)
+        # list(map(F, X, ..)) / list(starmap(F, P))  ->  [F(x, ..) for x, .. in zip(X, ..)] / [F(*p) ...] with the pairs unpacked
+        if f in ("list", "tuple") and len(n.args) == 1 and not n.keywords and isinstance(n.args[0], ast.Call) and not n.args[0].keywords:
+            inner = n.args[0]
+            fi = (access_path(inner.func) or "").split(".")[-1]
+            comp = None
+            if fi == "map" and len(inner.args) >= 2 and isinstance(inner.args[0], (ast.Name, ast.Attribute, ast.Lambda)) \
+                    and not any(isinstance(a, ast.Starred) for a in inner.args):
+                F, seqs = inner.args[0], inner.args[1:]
+                vs = ["__m%d_%d" % (getattr(n, "lineno", 0), k) for k in range(len(seqs))]
+                call = ast.Call(func=copy.deepcopy(F), args=[ast.Name(id=v, ctx=ast.Load()) for v in vs], keywords=[])
+                if len(seqs) == 1:
+                    gen = ast.comprehension(target=ast.Name(id=vs[0], ctx=ast.Store()), iter=seqs[0], ifs=[], is_async=0)
+                else:
+                    gen = ast.comprehension(target=ast.Tuple(elts=[ast.Name(id=v, ctx=ast.Store()) for v in vs], ctx=ast.Store()),
+                                            iter=ast.Call(func=ast.Name(id="zip", ctx=ast.Load()), args=list(seqs), keywords=[]), ifs=[], is_async=0)
+                comp = ast.ListComp(elt=call, generators=[gen])
+            elif fi == "starmap" and len(inner.args) == 2 and isinstance(inner.args[0], (ast.Name, ast.Attribute, ast.Lambda)) \
+                    and isinstance(inner.args[1], ast.Call) and isinstance(inner.args[1].func, ast.Name) and inner.args[1].func.id in ("enumerate", "zip") \
+                    and not inner.args[1].keywords:
+                F, P = inner.args
+                k_ = 2 if P.func.id == "enumerate" else len(P.args)
+                if (P.func.id == "enumerate" and len(P.args) == 1) or (P.func.id == "zip" and k_ >= 1):
+                    vs = ["__m%d_%d" % (getattr(n, "lineno", 0), k) for k in range(k_)]
+                    call = ast.Call(func=copy.deepcopy(F), args=[ast.Name(id=v, ctx=ast.Load()) for v in vs], keywords=[])
+                    tg = ast.Tuple(elts=[ast.Name(id=v, ctx=ast.Store()) for v in vs], ctx=ast.Store()) if k_ > 1 else ast.Name(id=vs[0], ctx=ast.Store())
+                    comp = ast.ListComp(elt=call, generators=[ast.comprehension(target=tg, iter=P, ifs=[], is_async=0)])
+            if comp is not None:
+                STATS["map_comp"] = STATS.get("map_comp", 0) + 1
+                out = _loc(comp, n)
+                return out if f == "list" else _loc(ast.Call(func=ast.Name(id="tuple", ctx=ast.Load()), args=[comp], keywords=[]), n)
         # consumers that read their whole argument: a generator argument is the list of the same elements
         if f in ("sum", "min", "max", "sorted", "list", "tuple", "set", "frozenset", "math.fsum", "np.sum", "numpy.sum") and n.args \
                 and isinstance(n.args[0], ast.GeneratorExp):
@@ -470,6 +503,10 @@ class _Cmp(ast.NodeTransformer):
             body = ast.Name(id="__o", ctx=ast.Load())
             for p_ in n.args[0].value.split("."):
                 body = ast.Attribute(value=body, attr=p_, ctx=ast.Load())
+            STATS["getter"] = STATS.get("getter", 0) + 1
+            return _loc(ast.Lambda(args=ast.arguments(posonlyargs=[], args=[ast.arg(arg="__o")], kwonlyargs=[], kw_defaults=[], defaults=[]), body=body), n)
+        if f.split(".")[-1] == "itemgetter" and len(n.args) >= 2 and not n.keywords and all(isinstance(a, ast.Constant) for a in n.args):
+            body = ast.Tuple(elts=[ast.Subscript(value=ast.Name(id="__o", ctx=ast.Load()), slice=a, ctx=ast.Load()) for a in n.args], ctx=ast.Load())
             STATS["getter"] = STATS.get("getter", 0) + 1
             return _loc(ast.Lambda(args=ast.arguments(posonlyargs=[], args=[ast.arg(arg="__o")], kwonlyargs=[], kw_defaults=[], defaults=[]), body=body), n)
         if f.split(".")[-1] == "itemgetter" and len(n.args) == 1 and not n.keywords and isinstance(n.args[0], ast.Constant):
@@ -583,10 +620,48 @@ def _enum_to_range(st):
     return [_loc(new, st)]
 
 
+def _product_loop(st):
+    """for a, b in itertools.product(A, B): body  ->  for a in A: for b in B: body    (B is a literal or a range: iterating it
+    again for every a gives the same elements)"""
+    if not (isinstance(st, ast.For) and not st.orelse and isinstance(st.iter, ast.Call) and (access_path(st.iter.func) or "").split(".")[-1] == "product"
+            and not st.iter.keywords and isinstance(st.target, ast.Tuple) and len(st.target.elts) == len(st.iter.args) >= 2
+            and all(isinstance(t, ast.Name) for t in st.target.elts)):
+        return None
+    def rerunnable(e):
+        return isinstance(e, (ast.Tuple, ast.List)) and all(isinstance(x, (ast.Constant, ast.UnaryOp)) for x in e.elts) or \
+            (isinstance(e, ast.Call) and isinstance(e.func, ast.Name) and e.func.id == "range" and all(_no_call(a) or (isinstance(a, ast.Call) and access_path(a.func) == "len") for a in e.args))
+    if not all(rerunnable(a) for a in st.iter.args):
+        return None
+    names = {t.id for t in st.target.elts}
+    reads = {n.id for a in st.iter.args for n in ast.walk(a) if isinstance(n, ast.Name)}
+    for b in st.body:
+        for n in ast.walk(b):
+            if isinstance(n, (ast.Break, ast.Continue)):
+                return None          # they would act on the innermost loop only
+            if isinstance(n, ast.Name) and not isinstance(n.ctx, ast.Load) and (n.id in names or n.id in reads):
+                return None
+    body = st.body
+    for t, a in reversed(list(zip(st.target.elts, st.iter.args))):
+        body = [_loc(ast.For(target=ast.Name(id=t.id, ctx=ast.Store()), iter=a, body=body, orelse=[]), st)]
+    STATS["product"] = STATS.get("product", 0) + 1
+    return body
+
+
 def _filter_map_loop(st, fx):
     """for x in filter(P, X): body  ->  for x in X: if not P(x): continue; body        (filter is lazy: P(x) is evaluated just
     before x is handed out)
     for y in map(F, X): body     ->  for m in X: y = F(m); body"""
+    if isinstance(st, ast.For) and not st.orelse and isinstance(st.iter, ast.Call) and isinstance(st.iter.func, ast.Name) and st.iter.func.id == "map" \
+            and len(st.iter.args) >= 3 and not st.iter.keywords and not any(isinstance(a, ast.Starred) for a in st.iter.args) \
+            and isinstance(st.iter.args[0], (ast.Name, ast.Lambda, ast.Attribute)):
+        # for y in map(F, A, B): body  ->  for a, b in zip(A, B): y = F(a, b); body
+        F, seqs = st.iter.args[0], st.iter.args[1:]
+        ms = [fx.fresh("m") for _ in seqs]
+        bind = ast.Assign(targets=[st.target], value=ast.Call(func=copy.deepcopy(F), args=[ast.Name(id=m, ctx=ast.Load()) for m in ms], keywords=[]))
+        new = ast.For(target=ast.Tuple(elts=[ast.Name(id=m, ctx=ast.Store()) for m in ms], ctx=ast.Store()),
+                      iter=ast.Call(func=ast.Name(id="zip", ctx=ast.Load()), args=list(seqs), keywords=[]), body=[bind] + st.body, orelse=[])
+        STATS["filter_map"] = STATS.get("filter_map", 0) + 1
+        return [_loc(new, st)]
     if not (isinstance(st, ast.For) and not st.orelse and isinstance(st.iter, ast.Call) and isinstance(st.iter.func, ast.Name)
             and st.iter.func.id in ("filter", "map") and len(st.iter.args) == 2 and not st.iter.keywords):
         return None
@@ -1216,6 +1291,9 @@ def _stmt(st, fx, occ):
             else:
                 out_.append(x_)
         return out_
+    r = _product_loop(st)
+    if r is not None:
+        return _block(r, fx, occ)
     r = _filter_map_loop(st, fx)
     if r is not None:
         return _block(r, fx, occ)
@@ -1472,6 +1550,22 @@ def _fuse_list_loops(fn, fx):
     return changed
 
 
+def _returns_as_expr(body):
+    """a body made of `if`s and `return`s only (every path returns a value) as one conditional expression, else None"""
+    if not body:
+        return None
+    st = body[0]
+    if isinstance(st, ast.Return):
+        return st.value
+    if isinstance(st, ast.If):
+        a = _returns_as_expr(st.body)
+        b = _returns_as_expr(st.orelse if st.orelse else body[1:])
+        if a is None or b is None:
+            return None
+        return ast.copy_location(ast.IfExp(test=st.test, body=a, orelse=b), st)
+    return None
+
+
 def _defs_to_lambdas(fn):
     """a nested `def f(a, b): return E` (plain parameters, no decorator, not recursive) is the local `f = lambda a, b: E`"""
     for node in ast.walk(fn):
@@ -1486,13 +1580,14 @@ def _defs_to_lambdas(fn):
                 if a.vararg or a.kwarg or a.kwonlyargs or a.posonlyargs or a.defaults:
                     continue
                 body = [x for x in st.body if not (isinstance(x, ast.Expr) and isinstance(x.value, ast.Constant))]
-                if len(body) != 1 or not isinstance(body[0], ast.Return) or body[0].value is None:
+                value = _returns_as_expr(body)
+                if value is None:
                     continue
-                if any(isinstance(x, ast.Name) and x.id == st.name for x in ast.walk(body[0].value)) \
-                        or any(isinstance(x, (ast.Yield, ast.YieldFrom, ast.Await, ast.NamedExpr)) for x in ast.walk(body[0].value)):
+                if any(isinstance(x, ast.Name) and x.id == st.name for x in ast.walk(value)) \
+                        or any(isinstance(x, (ast.Yield, ast.YieldFrom, ast.Await, ast.NamedExpr)) for x in ast.walk(value)):
                     continue
                 lam = ast.Lambda(args=ast.arguments(posonlyargs=[], args=[ast.arg(arg=x.arg) for x in a.args], kwonlyargs=[], kw_defaults=[], defaults=[]),
-                                 body=body[0].value)
+                                 body=value)
                 b[k] = _loc(ast.Assign(targets=[ast.Name(id=st.name, ctx=ast.Store())], value=lam), st)
                 STATS["def_lambda"] = STATS.get("def_lambda", 0) + 1
 
@@ -1628,10 +1723,48 @@ def _lambda_locals(fn):
     return changed
 
 
+def _partial_locals(fn):
+    """g = functools.partial(F, a, k=v) with plain arguments, g only ever called: g(x, y) -> F(a, x, y, k=v)"""
+    for node in ast.walk(fn):
+        for f in ("body", "orelse", "finalbody"):
+            b = getattr(node, f, None)
+            if not (isinstance(b, list) and b and isinstance(b[0], ast.stmt)):
+                continue
+            k = 0
+            while k < len(b):
+                st = b[k]
+                k += 1
+                if not (isinstance(st, ast.Assign) and len(st.targets) == 1 and isinstance(st.targets[0], ast.Name) and isinstance(st.value, ast.Call)
+                        and (access_path(st.value.func) or "") in ("functools.partial", "partial") and st.value.args):
+                    continue
+                part = st.value
+                if any(isinstance(a, ast.Starred) for a in part.args) or any(kw.arg is None for kw in part.keywords) \
+                        or not all(_no_call(a) for a in list(part.args) + [kw.value for kw in part.keywords]):
+                    continue
+                x = st.targets[0].id
+                reads = {n.id for n in ast.walk(part) if isinstance(n, ast.Name)}
+                region = b[k:]
+                total = sum(1 for n in ast.walk(fn) if isinstance(n, ast.Name) and n.id == x)
+                calls = [c for r in region for c in ast.walk(r) if isinstance(c, ast.Call) and isinstance(c.func, ast.Name) and c.func.id == x]
+                if len(calls) + 1 != total or not calls or any(c.keywords or any(isinstance(a, ast.Starred) for a in c.args) for c in calls):
+                    continue
+                if any(isinstance(n, ast.Name) and n.id in reads and not isinstance(n.ctx, ast.Load) for r in region for n in ast.walk(r)):
+                    continue
+                for c in calls:
+                    c.func = copy.deepcopy(part.args[0])
+                    c.args = [copy.deepcopy(a) for a in part.args[1:]] + c.args
+                    c.keywords = [copy.deepcopy(kw) for kw in part.keywords]
+                del b[k - 1]
+                k -= 1
+                ast.fix_missing_locations(fn)
+                STATS["partial_local"] = STATS.get("partial_local", 0) + 1
+
+
 def _unalias(fn):
     _fresh_then_store(fn)
     _slice_locals(fn)
     _lambda_locals(fn)
+    _partial_locals(fn)
     for _ in range(40):
         if not _unalias_once(fn):
             break
